@@ -557,6 +557,9 @@ def _corpus() -> list[tuple[dict[str, Any], list[list[Any]], list[Config]]]:
         (PI, [["next"], ["cancel"]], allc),
         (PI, [["cancel"], ["next"]], allc),
         (P, [["tick"], ["tick"], ["cancel"], ["tick"]], [Config("pipe"), Config("shm")]),
+        # off-kind: exchange() on a producer session whose turn carries data and then an error
+        (dict(P, steps=[EM(1), EM(2), EM(3), {"logs": [], "act": "nothing", "post": []}]), [["next"], ["send", {"cols": []}], ["send", {"cols": []}]],
+         [Config("http", 900, None), Config("http", 900, None), Config("http", None, "zstd"), Config("http", 600, "gzip"), Config("pipe")]),
         (X, [ok(1), ok(2), ok(3)], xc),
         (X, [ok(1), ["cancel"], ok(2), ["cancel"], ["close"]], xc),
         (X, [["cancel"], ok(2)], xc),
